@@ -12,7 +12,8 @@ META = {
                    'base is computed from the stack length read BEFORE the callee is popped as len - 1 - argc, locals are padded from the '
                    'num_locals of the same function value, pushframe stores the current ip into the frame it leaves; popframe pops the frame, '
                    'truncates the stack to its base and restores ip/bp from the new last frame; exactly one result is pushed. 16-bit frame '
-                   'arithmetic must be guarded.',
+                   'arithmetic must be guarded.'
+                   " R12.5 the frame size packed into a function value counts every defined name. R12.6 names are looked up only in the current function's context and the global one.",
     'not_decided': ['independence of activations as a run-time fact; results of deep recursion'],
 }
 
@@ -26,6 +27,12 @@ def run(ctx, rep):
     rep.rule('R12.2', 'return protocol: pop frame, truncate the stack to its base, restore ip/bp, push exactly one value')
     rep.rule('R12.3', 'a named function is declared before its body is compiled')
     rep.rule('R12.4', '16-bit frame arithmetic is guarded; an argument count the callee cannot hold is an error')
+    rep.rule('R12.5', 'the frame a call reserves holds every parameter and local of the callee: the size packed into the function value counts each defined name')
+    from rules import c02 as _c02
+    _c02.check_frame_size(ctx, rep, 'R12.5')
+    rep.rule('R12.6', 'an activation sees only its own variables and the globals: a name is looked up in the context of the function being compiled and in the global one, never in an enclosing function (whose slots belong to another frame)')
+    from rules import c09 as _c09
+    _c09.check_visibility(ctx, rep, 'R12.6')
     # ---- compiler side -----------------------------------------------------------------------
     seen = set()
     for a in R['arms']:
